@@ -243,6 +243,25 @@ def run(ctx):
                     ctx.violation(f"titrate-only:unknown-entry-exception:{name}", f"-i {lst2} raises {ru.exc!r}", meta)
                 else:
                     rels.append(relations.relate("SameAll", ri, text, ru, text, meta=dict(meta, what="unknown entries", list=lst2)))
+    # together with a chain selection that selects everything there is: nothing changes (a blank chain identifier is ' '
+    # for --chain and '_' in the list)
+    for nm_, lines_ in fragments(ctx)[:1]:
+        for ch_, sel_, pre_ in (("A", "A", "A"), (" ", " ", "_")):
+            txt_ = C.join(C.rename_chain(lines_, "A", ch_))
+            ids_ = []
+            for ln in lines_:
+                if C.is_atom(ln) and C.resid(ln) not in ids_:
+                    ids_.append(C.resid(ln))
+            for lst_ in (",".join(f"{pre_}:{r_[1]}" for r_ in ids_[:3]), ",".join(f"{pre_}:{r_[1]}" for r_ in ids_)):
+                r1_ = runner.run(txt_, ["-q", "-i", lst_])
+                r2_ = runner.run(txt_, ["-q", "-i", lst_, "-c", sel_])
+                ctx.count()
+                meta_ = {"input": f"{nm_} chain {ch_!r}", "list": lst_, "pdb": txt_, "what": "with --chain " + repr(sel_)}
+                if r1_.exc is None and r2_.exc is None:
+                    rels.append(relations.relate("SameAll", r1_, txt_, r2_, txt_, meta=meta_))
+                elif (r1_.exc is None) != (r2_.exc is None):
+                    ctx.violation(f"titrate-only:with-chain:exception:{nm_}", f"-i {lst_}: alone -> {r1_.exc!r}; with -c {sel_!r} -> {r2_.exc!r}",
+                                  {"pdb": txt_, "optargs": ["-i", lst_, "-c", sel_]})
     # census with the option (Trace_Run!C01_Census uses ListedRes)
     recs, metas, _ = runbank.run_and_record(ctx, cases)
     viol = runbank.validate(ctx, recs, metas, ["C01_Census", "C01_ExactlyOnce", "C14_UnlistedUnscored"], "titrate-only census")
